@@ -156,6 +156,20 @@ def free_energy_record(rng, b):
         vol.data += extra if form == 0 else extra.astype(float) * scale
         F = vol.get_free_energy(temperature=temp)
         mutated = True
+    # the two graphs in either order, before or after the energies are read: building a graph is a read-only question
+    graphs_first = bool(rng.random() < 0.5)
+    low_first = bool(rng.random() < 0.5)
+
+    def build_graphs():
+        if low_first:
+            g2 = F.free_energy_graph(max_energy_threshold=1e7)
+            g1 = F.free_energy_graph()
+        else:
+            g1 = F.free_energy_graph()
+            g2 = F.free_energy_graph(max_energy_threshold=1e7)
+        return g1, g2
+    if graphs_first:
+        g_def, g_1e7 = build_graphs()
     data = np.asarray(F.data, dtype=float)
     kB = physical_constants['Boltzmann constant in eV/K'][0]
     total = int(counts.sum())
@@ -167,8 +181,8 @@ def free_energy_record(rng, b):
     flat = data.reshape(-1)
     order = {val: i for i, val in enumerate(sorted(set(flat.tolist())))}
     rank = np.vectorize(lambda q: order[q])(data).astype(int)
-    g_def = F.free_energy_graph()
-    g_1e7 = F.free_energy_graph(max_energy_threshold=1e7)
+    if not graphs_first:
+        g_def, g_1e7 = build_graphs()
     return {'b': b, 'act': 'FreeEnergy', 'counts': counts.tolist(), 'finite': bool(np.all(np.isfinite(data))),
             'recovered': rec_list, 'rank': rank.tolist(), 'nodesDefault': [list(map(int, n)) for n in g_def.nodes],
             'nodes1e7': [list(map(int, n)) for n in g_1e7.nodes], 'meta': {'T': temp, 'dims': dims, 'kind': kind, 'density_scale': scale, 'integer_input': form == 0, 'data_changed_between_calls': mutated}}
